@@ -83,7 +83,7 @@ theorem processCmd_snd (w : W) (p : Nat) (d : Dg) : (processCmd w p d).2 = outsC
 structure Frame (k : Nat) (w w' : W) : Prop where
   loc : w'.loc = w.loc
   data : w'.data = w.data
-  cfg : w'.cfg = w.cfg
+  cfg : w'.cfg = w.cfg ∧ w'.nmData = w.nmData
   peers : ∀ q, q ≠ k → w'.peers q = w.peers q
   binds : ∃ keep : Entry → Bool, (∀ b, b.2.1 ≠ k → keep b = true) ∧ w'.binds = w.binds.filter keep
   subs : ∃ keep : Entry → Bool, (∀ b, b.2.1 ≠ k → keep b = true) ∧ w'.subs = w.subs.filter keep
@@ -138,7 +138,7 @@ theorem replyVal_frame (lf : LF) (d : Dg) : replyVal w' q lf d = replyVal w q lf
   obtain ⟨keepB, hkB, hB⟩ := hf.binds
   obtain ⟨keepS, hkS, hS⟩ := hf.subs
   unfold replyVal
-  rw [hB, hS, hf.data, filter_filter_keep, filter_filter_keep]
+  rw [hB, hS, hf.data, hf.cfg.2, filter_filter_keep, filter_filter_keep]
   · intro b hb'; apply hkB; rw [of_decide_eq_true hb']; exact hq
   · intro b hb'; apply hkS; rw [of_decide_eq_true hb']; exact hq
 
@@ -153,7 +153,7 @@ theorem wantsRead_frame (lf : LF) (rf : RF) (d : Dg) : wantsRead w' q lf rf d = 
   unfold wantsRead; rw [gateOk_frame hf hq]
 
 theorem crashes_frame (lf : LF) (rf : RF) (d : Dg) : crashes w' q lf rf d = crashes w q lf rf d := by
-  unfold crashes; rw [responses_frame hf hq, hf.cfg]
+  unfold crashes; rw [responses_frame hf hq, hf.cfg.1]
 
 end
 
@@ -206,7 +206,7 @@ theorem serve_cmd_frame {k : Nat} {w w' : W} (hf : Frame k w w') (q : Nat) (hq :
     have hd : dstF w' d = dstF w d := by unfold dstF; rw [hf.loc]
     rw [hd]
     cases dstF w d with
-    | none => dsimp only; rw [hf.cfg]
+    | none => dsimp only; rw [hf.cfg.1]
     | some lf =>
       dsimp only
       rw [crashes_frame hf hq, applies_frame hf hq, responses_frame hf hq, wantsRead_frame hf hq, hf.peers q hq]
@@ -358,7 +358,7 @@ theorem map_filter_entryOf (es : List TdK.Entry) (p : TdK.Entry → Bool) (keep 
   exact (h e).symm
 
 theorem frame_refl (k : Nat) (w : W) : Frame k w w :=
-  ⟨rfl, rfl, rfl, fun _ _ => rfl, ⟨fun _ => true, fun _ _ => rfl, (List.filter_eq_self.2 (fun _ _ => rfl)).symm⟩,
+  ⟨rfl, rfl, ⟨rfl, rfl⟩, fun _ _ => rfl, ⟨fun _ => true, fun _ _ => rfl, (List.filter_eq_self.2 (fun _ _ => rfl)).symm⟩,
     ⟨fun _ => true, fun _ _ => rfl, (List.filter_eq_self.2 (fun _ _ => rfl)).symm⟩⟩
 
 /-- RemoveRemoteDeviceConnection(k), every state of the invariant, every choice of comparisons that names peer and
@@ -371,7 +371,7 @@ theorem world_drop_frame (x : Ctx) (F : Facts) (hF : F.ok = true) (s : St) (hs :
     rw [this]; exact frame_refl k _
   | some c =>
     have ex := drop_exact F hF s hs k c hk
-    refine ⟨rfl, rfl, rfl, ?_, ⟨fun b => b.2.1 != k, ?_, ?_⟩, ⟨fun b => b.2.1 != k, ?_, ?_⟩⟩
+    refine ⟨rfl, rfl, ⟨rfl, rfl⟩, ?_, ⟨fun b => b.2.1 != k, ?_, ?_⟩, ⟨fun b => b.2.1 != k, ?_, ?_⟩⟩
     · intro q hq
       simp only [world, peerOf]
       rw [forSki_drop_other F s k q hq]
@@ -419,7 +419,7 @@ theorem world_dropEntity_frame (x : Ctx) (F : Facts) (hF : F.ok = true) (s : St)
       simp only [Bool.or_eq_false_iff, Bool.not_eq_false'] at hcond'
       have h0 : ent ≠ [0] := by simpa using hcond'.1
       have ex := dropEntity_exact F hF s hs k c hk ent h0 hcond'.2
-      refine ⟨rfl, rfl, rfl, hpeers, ⟨fun b => !(b.2.1 == k && b.2.2.1 == ent), ?_, ?_⟩,
+      refine ⟨rfl, rfl, ⟨rfl, rfl⟩, hpeers, ⟨fun b => !(b.2.1 == k && b.2.2.1 == ent), ?_, ?_⟩,
         ⟨fun b => !(b.2.1 == k && b.2.2.1 == ent), ?_, ?_⟩⟩
       · intro b hb; simp [hb]
       · simp only [world]; rw [ex.2.1]; exact map_filter_entryOf _ _ _ (fun _ => rfl)
